@@ -403,8 +403,42 @@ func reScenarios(thorough bool) []vrt.Scenario {
 	return scs
 }
 
+// registry programs of C02 (and once-handler programs in the spirit of C04) under the
+// race detector: the same bodies, the C02 oracle is not evaluated here (only races,
+// deadlocks and escaping panics)
+type progInst struct {
+	*bp.Inst
+	name string
+}
+
+func (p *progInst) Check(res *vrt.Result) []vrt.Violation { return statusViolations(p.name, res) }
+
+func progScenarios() []vrt.Scenario {
+	progs := bp.Curated()
+	onceA := evt.SubOpts{Once: true, Async: true}
+	progs = append(progs,
+		&bp.Prog{Name: "once-then-plain-overlapping-publishes", Pre: []bp.Op{bp.SubOp(0, 0, evt.SubOpts{Once: true}), bp.SubOp(0, 1, evt.SubOpts{}), bp.SubOp(0, 2, evt.SubOpts{})},
+			Tasks: [][]bp.Op{{bp.PubOp(0)}, {bp.PubOp(0)}}},
+		&bp.Prog{Name: "once-async-vs-unsub-vs-publish", Pre: []bp.Op{bp.SubOp(0, 0, onceA), bp.SubOp(0, 1, evt.SubOpts{})},
+			Tasks: [][]bp.Op{{bp.PubOp(0)}, {bp.UnsubOp(0, 1)}, {bp.PubOp(0)}}},
+	)
+	var scs []vrt.Scenario
+	for _, p := range progs {
+		p := p
+		name := "prog " + p.Name
+		scs = append(scs, vrt.Scenario{Name: name, New: func() vrt.Instance {
+			in := bp.New(p)
+			in.NoProbe = true
+			return &progInst{Inst: in, name: name}
+		}})
+	}
+	return scs
+}
+
 func all(thorough bool) []vrt.Scenario {
-	return append(append(mixScenarios(thorough), reScenarios(thorough)...), sqlScenarios()...)
+	l := append(mixScenarios(thorough), reScenarios(thorough)...)
+	l = append(l, progScenarios()...)
+	return append(l, sqlScenarios()...)
 }
 
 func run(c *h.Check) {
